@@ -84,3 +84,21 @@
 (define-fun isU32 ((x Item)) Bool ((_ is iU32) x))
 (define-fun isI64 ((x Item)) Bool ((_ is iI64) x))
 (define-fun isBytes ((x Item)) Bool ((_ is iBytes) x))
+
+; C15: loader events. emitLoad(t, loader, name): loader was asked for name; loadErr gives the error it
+; answered with (nil = it has the template), loadSrc the source it returned
+(declare-fun emitLoad (Tr Iface Str) Tr)
+(declare-fun loadErr (Tr Iface Str) Iface)
+(declare-fun loadSrc (Tr Iface Str) Str)
+(declare-fun mtimeOf (Iface Str) Int)
+(declare-fun mtimeErr (Iface Str) Iface)
+
+; loadsUpTo(t, a, o, k, n): trace after asking loaders a[o..o+k) in order for n
+(declare-fun loadsUpTo (Tr (Array Int Iface) Int Int Str) Tr)
+(assert (forall ((t Tr) (a (Array Int Iface)) (o Int) (n Str)) (! (= (loadsUpTo t a o 0 n) t) :pattern ((loadsUpTo t a o 0 n)))))
+(assert (forall ((t Tr) (a (Array Int Iface)) (o Int) (k Int) (n Str)) (! (=> (> k 0) (= (loadsUpTo t a o k n) (emitLoad (loadsUpTo t a o (- k 1) n) (select a (+ o (- k 1))) n))) :pattern ((loadsUpTo t a o k n)))))
+
+; missUpTo(t, a, o, k, n): the first k loaders all answered with an error
+(declare-fun missUpTo (Tr (Array Int Iface) Int Int Str) Bool)
+(assert (forall ((t Tr) (a (Array Int Iface)) (o Int) (n Str)) (! (missUpTo t a o 0 n) :pattern ((missUpTo t a o 0 n)))))
+(assert (forall ((t Tr) (a (Array Int Iface)) (o Int) (k Int) (n Str)) (! (=> (> k 0) (= (missUpTo t a o k n) (and (missUpTo t a o (- k 1) n) (distinct (loadErr (loadsUpTo t a o (- k 1) n) (select a (+ o (- k 1))) n) (mk-iface 0 0))))) :pattern ((missUpTo t a o k n)))))
